@@ -39,3 +39,52 @@ Definition utf8_encode (c : N) : list N :=
   else if c <? 2048 then [192 + c / 64; 128 + c mod 64]
   else if c <? 65536 then [224 + c / 4096; 128 + (c / 64) mod 64; 128 + c mod 64]
   else [240 + c / 262144; 128 + (c / 4096) mod 64; 128 + (c / 64) mod 64; 128 + c mod 64].
+
+(* ---- String::from_utf8_lossy (core::str::lossy::Utf8Chunks): every maximal invalid prefix of an ill-formed
+   sequence becomes U+FFFD; `safe_get` past the end reads 0, which is no continuation byte ---- *)
+Definition REPLACEMENT : list N := [239; 191; 189].
+Definition second3 (b0 b1 : N) : bool :=
+  if b0 =? 224 then in_rng 160 191 b1 else if b0 =? 237 then in_rng 128 159 b1 else cont b1.
+Definition second4 (b0 b1 : N) : bool :=
+  if b0 =? 240 then in_rng 144 191 b1 else if b0 =? 244 then in_rng 128 143 b1 else cont b1.
+
+Fixpoint lossy (bs : list N) : list N :=
+  match bs with
+  | [] => []
+  | b0 :: r =>
+      if b0 <? 128 then b0 :: lossy r
+      else if in_rng 194 223 b0 then
+        match r with
+        | b1 :: r1 => if cont b1 then b0 :: b1 :: lossy r1 else REPLACEMENT ++ lossy r
+        | [] => REPLACEMENT
+        end
+      else if in_rng 224 239 b0 then
+        match r with
+        | b1 :: r1 =>
+            if second3 b0 b1 then
+              match r1 with
+              | b2 :: r2 => if cont b2 then b0 :: b1 :: b2 :: lossy r2 else REPLACEMENT ++ lossy r1
+              | [] => REPLACEMENT
+              end
+            else REPLACEMENT ++ lossy r
+        | [] => REPLACEMENT
+        end
+      else if in_rng 240 244 b0 then
+        match r with
+        | b1 :: r1 =>
+            if second4 b0 b1 then
+              match r1 with
+              | b2 :: r2 =>
+                  if cont b2 then
+                    match r2 with
+                    | b3 :: r3 => if cont b3 then b0 :: b1 :: b2 :: b3 :: lossy r3 else REPLACEMENT ++ lossy r2
+                    | [] => REPLACEMENT
+                    end
+                  else REPLACEMENT ++ lossy r1
+              | [] => REPLACEMENT
+              end
+            else REPLACEMENT ++ lossy r
+        | [] => REPLACEMENT
+        end
+      else REPLACEMENT ++ lossy r
+  end.
